@@ -87,3 +87,8 @@ Definition dp3 (c1 c2 c3 x : R) : R := c1 + 2 * c2 * x + 3 * c3 * (x * x).
 Definition dd3 (c1 c2 c3 x y : R) : R := c1 + c2 * (x + y) + c3 * (x * x + x * y + y * y).
 (* the plane tensor with eigenvalues l0 l1 (in plane, eigenvectors (m0,m3), (m1,m4)) and l2 (out of plane) *)
 Definition stensor2_of_eigen (l0 l1 l2 m0 m1 m3 m4 : R) : list R := first4 (iso_spec m0 m1 0 m3 m4 0 0 0 1 l0 l1 l2).
+Definition upd (j : nat) (x : R) (s : list R) : list R := firstn j s ++ x :: skipn (S j) s.
+Definition nthr (l : list R) (i : nat) : R := nth i l 0.
+Definition poly3_l (c0 c1 c2 c3 : R) (s : list R) : list R := poly3_stensor2 c0 c1 c2 c3 (nthr s 0) (nthr s 1) (nthr s 2) (nthr s 3).
+(* the two in-plane eigenvectors (m0,m3), (m1,m4) are orthonormal *)
+Definition ortho2 (m0 m1 m3 m4 : R) : Prop := m0 * m0 + m3 * m3 = 1 /\ m1 * m1 + m4 * m4 = 1 /\ m0 * m1 + m3 * m4 = 0.
